@@ -46,6 +46,10 @@ impl<T: Unpin> tokio_stream::Stream for Source<T> {
             Some(Item::Err(s)) => Poll::Ready(Some(Err(s))),
         }
     }
+    // exact length when the script consists of messages only (as an iterator-backed stream would report)
+    fn size_hint(&self) -> (usize, Option<usize>) {
+        if !self.ended && self.items.iter().all(|i| matches!(i, Item::Msg(_))) { (self.items.len(), Some(self.items.len())) } else { (0, None) }
+    }
 }
 
 // ---------------------------------------------------------------- scripted body
